@@ -227,6 +227,9 @@ func dropRefs(p *Plan, id string) {
 			if e.SameAs == id {
 				e.SameAs = ""
 			}
+			if e.SameAsIfOK == id {
+				e.SameAsIfOK = ""
+			}
 			if e.SameResultAs == id {
 				e.SameResultAs = ""
 			}
